@@ -1383,8 +1383,14 @@ func (h *c08Hist) runSlack(age time.Duration, useClone bool) {
 	h.name = fmt.Sprintf("s%d.c08.test.", h.id)
 	sc := c08AsIs(c08AsIsPool[r.IntN(len(c08AsIsPool))])
 	ttl := uint32(60)
-	if r.IntN(2) == 0 {
+	switch r.IntN(3) {
+	case 0:
 		ttl = 600
+	case 1:
+		// the probes at age 16-22 s land inside the entry's LAST 15 s: bytes packed at
+		// insert time (TTL 30) must not be handed out there, also not by a reload clone
+		ttl = 30
+		m.Count("slack_histories_probing_last_15s", 1)
 	}
 	cc := h.newCtrl("insert")
 	if cc == nil {
